@@ -11,6 +11,7 @@ pub mod c03;
 pub mod c06;
 pub mod c07;
 pub mod c13;
+pub mod c15;
 pub mod c20;
 pub mod oracle;
 
@@ -39,6 +40,8 @@ pub fn suites() -> Vec<(&'static str, Suite)> {
         ("wide_config", c13::run_wide_config as Suite),
         ("scene", c13::run_scene as Suite),
         ("wide_sweep", c13::run_wide_sweep as Suite),
+        ("grad_new", c15::run_grad_new as Suite),
+        ("grad_px", c15::run_grad_px as Suite),
         ("stroker_hist", c20::run_stroker_hist as Suite),
         ("draw_hist", c20::run_draw_hist as Suite),
     ]
